@@ -467,6 +467,17 @@ class BeartypeSourceFileLoader(SourceFileLoader):
         if conf is None:
             # print(f'Importing module "{fullname}" without beartyping...')
 
+            # Nullify the configuration previously classified by a prior call
+            # of this method against this same loader if that module was
+            # hooked then but is now unhooked (e.g., due to this loader being
+            # reused by a lazy loader or a "module_from_spec() +
+            # exec_module()"-style caller *AFTER* the "beartyping()" context
+            # manager hooking that module exited). Failing to do so would
+            # erroneously instruct the source_to_code() method to transform
+            # that module and then cache the resulting beartyped bytecode under
+            # the standard non-beartyped bytecode filename.
+            self._module_conf = None
+
             # Beartype-specific optimization marker previously applied by the
             # current thread if this unhooked module is being imported by a
             # parent hooked module currently being compiled by this thread *OR*
